@@ -1344,3 +1344,9 @@ from .variants_comprel import BREAKING as _CR_BREAKING, PRESERVING as _CR_PRESER
 BREAKING += _CR_BREAKING
 PRESERVING += _CR_PRESERVING
 UNDECIDED += _CR_UNDECIDED
+
+# ---- white-box round: layout engines (C03 C08 C09 C20) ----
+from .variants_layout import BREAKING as _LAY_BREAKING, PRESERVING as _LAY_PRESERVING, UNDECIDED as _LAY_UNDECIDED  # noqa: E402
+BREAKING += _LAY_BREAKING
+PRESERVING += _LAY_PRESERVING
+UNDECIDED += _LAY_UNDECIDED
